@@ -54,6 +54,8 @@ func main() {
 		checks.DumpCodes(os.Args[2], uint32(off))
 	case "corpus":
 		checks.CorpusReport(len(os.Args) > 2)
+	case "c19-ambient":
+		os.Exit(checks.C19AmbientMain(os.Args[2:]))
 	case "list":
 		for _, id := range engine.IDs() {
 			fmt.Println(id)
